@@ -350,7 +350,7 @@ def run_scenario(tag):
         return {"script": os.path.relpath(sc, VERIF), "built": True, "exit": None, "exhibits_failure": False, "output": "scenario timed out"}
 
 
-def bounded_stand_in(pid, seed, why):
+def bounded_stand_in(pid, seed, why, tier="quick"):
     """DESIGN 16: the finite family of concrete projects / operation sequences of this property, run against a binary
     built from the current tree.  Returns (info for the evidence, [(case record, replay path)])."""
     if os.environ.get("ZV_NO_BOUNDED"):
@@ -361,11 +361,11 @@ def bounded_stand_in(pid, seed, why):
     binary, err = brun.build_binary(zv.REPO)
     if not binary:
         return {"ran": False, "reason": "the current tree does not build: " + err[-400:]}, []
-    r = brun.run(pid, binary, seed)
+    r = brun.run(pid, binary, seed, tier=tier)
     confirmed = []
     for rec in r["failed"][:4]:
         # a failing case counts only if it fails again when run alone (no load from the other cases)
-        again = brun.run(pid, binary, seed, only=rec["case"], workers=1)
+        again = brun.run(pid, binary, seed, only=rec["case"], workers=1, tier=tier)
         if any(x["case"] == rec["case"] for x in again["failed"]):
             confirmed.append(rec)
         else:
@@ -455,7 +455,7 @@ def main(argv):
                     vac[u] = (0, [{"n": -1, "where": "vacuity run failed: %s" % str(e)[:300]}])
     except zv.Undecided as e:
         print("UNDECIDED: %s" % e)
-        binfo, bfail = bounded_stand_in(pid, seed, "undecided: %s" % str(e)[:300])
+        binfo, bfail = bounded_stand_in(pid, seed, "undecided: %s" % str(e)[:300], tier)
         evdir = os.environ.get("ZV_EVIDENCE", os.path.join(VERIF, "evidence"))
         os.makedirs(evdir, exist_ok=True)
         json.dump({"property_id": pid, "tier": tier, "seed": seed, "level": "proof", "coverage": {"obligations": 0, "discharged": 0, "checker_cmd": "", "trusted_base": [], "undecided": [str(e)[:600]], "bounded_stand_in": binfo, "explanation": "the deductive run did not get as far as generating obligations on this tree (undecided); only the bounded stand-in ran"}, "assumptions": [], "wall_s": round(time.time() - t0, 2), "violations": len(bfail)}, open(os.path.join(evdir, pid + ".json"), "w"), indent=1)
@@ -575,7 +575,7 @@ def main(argv):
         res_changed, res_mine = [], []
     if (undecided and not violations) or tier == "thorough" or (res_mine and not violations):
         why = ("undecided: " + "; ".join(undecided)[:400]) if undecided else (("code under no contract changed in " + ", ".join(res_mine)) if res_mine else "thorough tier")
-        binfo, bfail = bounded_stand_in(pid, seed, why)
+        binfo, bfail = bounded_stand_in(pid, seed, why, tier)
     binfo["unverified_code_changed_in"] = res_mine
 
     # ---- evidence -------------------------------------------------------------------------------
